@@ -48,3 +48,13 @@ check("C10", "exploration",
       "Six (thorough: ten) configurations of {TLS, socket buffers, openid / ntlm with the real rdpgw-auth / local+kerberos} each receive thousands of hostile inputs (packet headers and bodies at every phase before and after authentication, websocket frame abuse, legacy channel orderings and chunk syntax, raw HTTP, every Authorization prefix, NTLM messages with hostile security buffers, KDC-proxy DER mutations, mutated SPNEGO tokens); any panic (also one recovered by net/http or by the service), fatal error, exit or failed liveness probe is a violation and is attributed to a single input by replaying the batch one by one. 100k (2M) mutated NTLM messages additionally go through the verifier in-process.",
       "trusted: PAM stand-in library, forged Kerberos tickets, fake IdP; the input space is sampled by structure, not enumerated; race reports under duplicate-channel abuse are recorded, not judged",
       "DESIGN.md 4 C10")
+check("C02", "exploration",
+      "runtime monitoring: semantic cookie oracle (own HMAC/base64/JSON) over tunnel-create statuses of the real binary, scripted fake IdP conditions",
+      "Thousands of candidate cookies (minted by the real /connect flow, character and bit mutations of every segment, truncations, junk, other algorithms and keys, re-signed payloads with changed iss/exp/nbf/access token, nested and JSON serialisations) are presented over real tunnels under each IdP condition, including revocation after a successful use; accepted implies semantically valid, fresh implies accepted, refusal means the cookie-access-denied status and the end of the tunnel, minted lifetime <= 300 s.",
+      "trusted: the lab's HS256/base64url code and the fake IdP; expiry probes keep >= 30 s distance from the leeway boundary; candidates that decode to an authentic token (base64 trailing-bit equivalence), tokens without exp and nbf-in-future are recorded, not judged",
+      "DESIGN.md 4 C02")
+check("C15", "exploration",
+      "runtime monitoring: /tokeninfo oracle using the lab's own RFC 7516 dir+A128CBC-HS256 / HS256 implementation against two real gateway processes (both key modes)",
+      "Tokens minted through the real /connect flow for a range of user names must yield 200 with the right subject, open under the configured keys with the lab's own JOSE code and not reveal the name; every sampled single-character substitution of the five segments whose decoded bytes change, truncations, tokens under other keys / algorithms / issuers / expiry, plain signed JWTs, junk and cross-mode tokens must yield 403 without claim text; parameter and method errors 400 / 405; a token valid only by leeway is looked up before and again after the leeway ran out.",
+      "trusted: the lab's JOSE implementation (cross-validated: its own forged tokens are accepted, minted tokens open); the leeway probe uses one-sided margins of >= 10 s / 15 s",
+      "DESIGN.md 4 C15")
